@@ -10,6 +10,8 @@ Extracted from src/celpy/evaluation.py (and src/celpy/*.py for writes to base_fu
   erroneous-argument checks; the `exprlist` rule returning the first error;
 * `result()`'s caught classes;
 * `Phase1Transpiler.func_name` / `host_function`: identity check before dotted text, the fallback texts, the argument check;
+* `Transpiler.transpile`: Phase 1 (the pass in which `func_name` consults the activation OF THE PROGRAM BEING BUILT) runs on
+  every call, unconditionally — the decorations of an AST that an earlier program left behind are never re-used;
 * which names `member_dot_arg` / `ident_arg` treat as macros (both evaluators);
 * laziness of `?:` in the interpreter (`if cond_value:` visits one child) and the number of `result()` operands of the
   transpiled `?:` template.
@@ -792,6 +794,30 @@ def cond_facts(ev: ast.Module):
     return lazy, n_result, eager_logic
 
 
+def phase1_unconditional(ev: ast.Module) -> bool:
+    """`Transpiler.transpile`: a `Phase1Transpiler(…).visit(self.ast)` is a statement of the function body itself (not under an
+    `if` / `try` / loop) and no `return` precedes it — written in one statement or via a local holding the visitor."""
+    fn = find_func(find_class(ev, "Transpiler").body, "transpile")
+    visitors = set()
+    for st in fn.body:
+        if isinstance(st, (ast.Assign, ast.AnnAssign)) and st.value is not None:
+            targets = st.targets if isinstance(st, ast.Assign) else [st.target]
+            made = isinstance(st.value, ast.Call) and ast.unparse(st.value.func) == "Phase1Transpiler"
+            for t in targets:
+                if isinstance(t, ast.Name):
+                    (visitors.add if made else visitors.discard)(t.id)
+            continue
+        if isinstance(st, ast.Expr) and isinstance(st.value, ast.Call) and isinstance(st.value.func, ast.Attribute) \
+                and st.value.func.attr == "visit" and [ast.unparse(a) for a in st.value.args] == ["self.ast"] and not st.value.keywords:
+            recv = st.value.func.value
+            if (isinstance(recv, ast.Name) and recv.id in visitors) or \
+                    (isinstance(recv, ast.Call) and ast.unparse(recv.func) == "Phase1Transpiler"):
+                return True
+        if any(isinstance(n, (ast.Return, ast.Raise)) for n in ast.walk(st)):
+            return False
+    return False
+
+
 def b(x: bool) -> str:
     return "true" if x else "false"
 
@@ -799,7 +825,7 @@ def b(x: bool) -> str:
 def gen_funcs() -> str:
     ev = parse(EV)
     out = [HEADER.format(src="src/celpy/evaluation.py (base_functions, Activation.__init__, function_eval, method_eval, exprlist, "
-                             "result, func_name, host_function, member_dot_arg, expr) and src/celpy/*.py (writes to base_functions)"),
+                             "result, func_name, host_function, transpile, member_dot_arg, expr) and src/celpy/*.py (writes to base_functions)"),
            "import Cel.Model.Basic\nnamespace Cel.Gen.Funcs\nopen Cel (Exc)\n"]
     # base_functions keys
     keys = None
@@ -840,6 +866,7 @@ def gen_funcs() -> str:
     out.append(f"def funcNameUnboundIsErrorObject : Bool := {b(unbound)}")
     out.append(f"def callsPassCallFlag : Bool := {b(flag)}")
     out.append(f"def hostFunctionChecksArguments : Bool := {b(checks)}")
+    out.append(f"def transpilePhase1Unconditional : Bool := {b(phase1_unconditional(ev))}")
     lazy, n_result, eager_logic = cond_facts(ev)
     out.append(f"def condLazyI : Bool := {b(lazy)}")
     out.append(f"def condResultOperandsC : Nat := {n_result}")
